@@ -148,6 +148,12 @@ def solve_one(job, catalogue, trees):
                 cden = 1
                 for v in raw:
                     cden = cden * v.denominator // math.gcd(cden, v.denominator)
+                shared = None
+                if int(p["id"]) % 4 == 1:
+                    # float ndarray data, used for TWO solves of the same problem (through the transformation,
+                    # then directly): both must answer for the stated data
+                    y0 = np.array(y0, dtype=float)
+                    shared = y0
                 if int(p["id"]) % 2 == 0 and cden <= 4096:
                     y0 = [int(v * cden) for v in raw]
                     if int(p["id"]) % 4 == 0:
@@ -157,6 +163,16 @@ def solve_one(job, catalogue, trees):
                     exact = exact * cden
                 sol = solve_ode_ivp(span, fx, coeffs, y0, transform=tf, method=job["method"],
                                     no_derivatives=False, rtol=IVP_TOL, atol=IVP_TOL)
+                if shared is not None and tf is not None:
+                    sol_direct = solve_ode_ivp(span, fx, coeffs, shared, transform=None, method=job["method"],
+                                               no_derivatives=False, rtol=IVP_TOL, atol=IVP_TOL)
+                    g2 = np.asarray(sol_direct(pts), dtype=float)
+                    g2 = g2[None, :] if g2.ndim == 1 else g2
+                    sc2 = np.maximum(np.max(np.abs(exact), axis=1), 1e-300)
+                    e2 = np.max(np.abs(g2 - exact), axis=1) / sc2 if g2.shape == exact.shape else np.array([np.inf])
+                    if not np.all(e2 <= 1e-6):
+                        raise AssertionError(f"the direct solve that re-uses the same initial-data array after the transformed "
+                                             f"solve is off by {float(np.max(e2)):.3e} (the data array was changed?)")
             else:
                 mesh = np.linspace(x0, x1, BVP_MESH)
                 increasing = True
